@@ -433,7 +433,9 @@ func c15E2ERandom(r *Run) {
 						case 6:
 							it = fmt.Sprintf("d%d", PickOne(rng, []int{e.NObjs, e.NObjs, e.NObjs + 1}))
 						default:
-							it = fmt.Sprintf("m%d:own-message-%d", PickOne(rng, []int{0, e.NObjs}), rng.Intn(90))
+							// the hook's own message is relayed verbatim: also when it looks like a format string
+							it = fmt.Sprintf("m%d:own-message-%d%s", PickOne(rng, []int{0, e.NObjs}), rng.Intn(90),
+								PickOne(rng, []string{"", "", "-100%", "-%s", "-%d-of-%d", "-%v%%", "-%!x", "-{{.}}"}))
 						}
 					}
 					e.Script = append(e.Script, it)
